@@ -394,6 +394,18 @@ func planCanon(p *Prog, stdlib, methods bool) canonPlan {
 					}
 					return true
 				case *ast.AssignStmt:
+					// x = x (left by an expansion that works on the variable itself): nothing
+					if x.Tok == token.ASSIGN && len(x.Lhs) == 1 && len(x.Rhs) == 1 && free(x.Pos(), x.End()) {
+						if l, isL := x.Lhs[0].(*ast.Ident); isL && l.Name != "_" {
+							if r, isR := ast.Unparen(x.Rhs[0]).(*ast.Ident); isR && info.Uses[l] != nil && info.Uses[l] == info.Uses[r] {
+								fe := in.file(x.Pos())
+								fe.edits = append(fe.edits, textEdit{start: in.off(x.Pos()), end: in.off(x.End()), text: ""})
+								taken = append(taken, [2]token.Pos{x.Pos(), x.End()})
+								plan.expanded = append(plan.expanded, "self-assignment dropped")
+								return false
+							}
+						}
+					}
 					// x := ptr.Deref(P, D)  ->  x := D; if P != nil { x = *P }
 					if (x.Tok == token.ASSIGN || x.Tok == token.DEFINE) && len(x.Lhs) == 1 && len(x.Rhs) == 1 && free(x.Pos(), x.End()) {
 						if call, isCall := ast.Unparen(x.Rhs[0]).(*ast.CallExpr); isCall && len(call.Args) == 2 && stdName(call.Fun) == "k8s.io/utils/ptr.Deref" &&
@@ -1175,6 +1187,14 @@ func planCanon(p *Prog, stdlib, methods bool) canonPlan {
 							okc = false
 							break
 						}
+						if _, isSig := fld.Type().Underlying().(*types.Signature); isSig && strings.HasPrefix(strings.TrimSpace(inits[j]), "func") && !types.IsInterface(fld.Type()) {
+							if _, named := fld.Type().(*types.Named); !named {
+								// a function literal keeps the short form: the closure expansion of a later round reads `name := func..`
+								sb.WriteString(nm + " := " + inits[j] + "\n")
+								sb.WriteString("_ = " + nm + "\n")
+								continue
+							}
+						}
 						if inits[j] != "" {
 							sb.WriteString("var " + nm + " " + tt + " = " + inits[j] + "\n")
 						} else {
@@ -1319,6 +1339,17 @@ func planMethodRestore(p *Prog, in *inliner, plan *canonPlan) {
 		}
 		f := p.lookupQuiet(pkgSuffix, "", name)
 		if f == nil || f.Decl == nil || f.Decl.Recv != nil || f.Decl.Type.TypeParams != nil {
+			continue
+		}
+		// a plain function of that name that the confirmed tree has as well (next to the method) is not the method turned
+		// into a function
+		alsoPinned := false
+		for _, ps := range pinnedSigs {
+			if ps.Recv == "" && ps.Name == name && ps.Pkg == f.Pkg.PkgPath {
+				alsoPinned = true
+			}
+		}
+		if alsoPinned {
 			continue
 		}
 		pkg := f.Pkg
